@@ -57,6 +57,7 @@ fn by_hash() -> &'static HashMap<u64, &'static Entry> {
 /// local counters of an enumerated pass (merged into the tally once, the hot loop stays free of map lookups)
 #[derive(Default)]
 struct Counts {
+    mask: u32,
     evals: u64,
     nontrivial: u64,
     flags: [u64; 15],
@@ -64,11 +65,13 @@ struct Counts {
 }
 impl Counts {
     #[inline(always)]
-    fn add(&mut self, kind: &str, fl: u32) {
+    fn new(kind: &str) -> Counts {
+        Counts { mask: super::nontrivial_mask(kind), ..Counts::default() }
+    }
+    #[inline(always)]
+    fn add(&mut self, fl: u32) {
         self.evals += 1;
-        if super::nontrivial(kind, fl) {
-            self.nontrivial += 1;
-        }
+        self.nontrivial += (fl & self.mask != 0) as u64;
         let mut b = fl & 0x7fff;
         while b != 0 {
             let i = b.trailing_zeros() as usize;
@@ -121,7 +124,9 @@ fn tally_flags(e: &Entry, fl: u32, w: &[u64], t: &mut Tally) {
 pub fn check(w: &[u64], t: &mut Tally) -> Result<(), Fail> {
     t.eval(1);
     let Some(e) = by_hash().get(&w[0]) else {
-        return Err(Fail::new("harness-unknown-conversion", "?", format!("no conversion with name hash 0x{:x} in this build (table changed?)", w[0])));
+        // a saved input of a conversion that is not in this tree / backend any more: nothing to decide
+        t.class("conversion-not-in-this-build");
+        return Ok(());
     };
     if w.len() < 1 + e.ns {
         return Err(Fail::new("harness-short-case", e.name, "not enough lane words"));
@@ -154,7 +159,7 @@ fn strat(e: &'static Entry) -> BoxedStrategy<Vec<u64>> {
 fn direct(env: &mut Env, e: &'static Entry, lanes: &[u64], c: &mut Counts) -> bool {
     match (e.f)(lanes) {
         Ok(fl) => {
-            c.add(e.kind, fl);
+            c.add(fl);
             true
         }
         Err(_) => {
@@ -232,7 +237,7 @@ fn group_sub<'a>(kind: &'static str, src: &'static str, es: Vec<&'static Entry>)
         shards,
         move |env: &mut Env| {
             let list = super::boundary_list(src);
-            let mut c = Counts::default();
+            let mut c = Counts::new(kind);
             env.tally.exhaustive = small;
             env.tally.notes.insert("conversions".into(), json!(es.len()));
             env.tally.notes.insert(
@@ -269,7 +274,7 @@ fn mask_sub<'a>(es: Vec<&'static Entry>) -> SubCheck<'a> {
         format!("mask/{}", VARIANT),
         1,
         move |env: &mut Env| {
-            let mut c = Counts::default();
+            let mut c = Counts::new("mask");
             env.tally.exhaustive = true;
             env.tally.notes.insert("conversions".into(), json!(es.len()));
             'outer: for e in &es {
@@ -289,9 +294,12 @@ fn mask_sub<'a>(es: Vec<&'static Entry>) -> SubCheck<'a> {
     )
 }
 
-/// f32 bit-pattern sweep through every as_* cast of one f32 source type: case i puts pattern
-/// i*stride+offset in lane 0 and golden-ratio-shifted patterns in the other lanes, so that over a complete
-/// sweep every lane position sees every pattern, with different values per lane.
+/// f32 bit-pattern sweep through every as_* cast of one f32 source type.
+/// Strided form (quick; reduced-volume builds): case i puts pattern i*stride+offset in lane 0 and
+/// golden-ratio-shifted patterns in the other lanes. Complete form (thorough, full volume): 2^32/N cases,
+/// lane q of case i holds pattern N*((i + q*K) mod C) + q, so every one of the 2^32 patterns goes through every
+/// cast exactly once (pattern p in lane p mod N: each lane sees every sign/exponent and every N-th significand)
+/// with unrelated values in the other lanes.
 fn sweep_sub<'a>(srcty: &'static str, es: Vec<&'static Entry>) -> SubCheck<'a> {
     SubCheck::new(
         format!("sweep-f32/{}/{}", srcty, VARIANT),
@@ -300,29 +308,49 @@ fn sweep_sub<'a>(srcty: &'static str, es: Vec<&'static Entry>) -> SubCheck<'a> {
             let full = env.args.scale >= 1.0;
             let stride: u64 = match (env.args.tier, full) {
                 (Tier::Thorough, true) => 1,
-                (Tier::Thorough, false) => 3,
+                (Tier::Thorough, false) => 7,
                 (Tier::Quick, true) => 97,
                 (Tier::Quick, false) => 389,
             };
-            let total: u64 = ((1u64 << 32) + stride - 1) / stride;
-            let offset = mix(env.args.seed, 77) % stride;
             let ns = es[0].ns;
-            let mut c = Counts::default();
+            let mut c = Counts::new("cast");
             let mut lanes = [0u64; 8];
-            'outer: for i in env.my_range(total) {
-                let p = (i * stride + offset) & 0xffff_ffff;
-                for q in 0..ns {
-                    lanes[q] = (p + q as u64 * 0x9E37_79B1) & 0xffff_ffff;
+            if stride == 1 {
+                let n = ns as u64;
+                let cases = ((1u64 << 32) + n - 1) / n;
+                const K: u64 = 0x3C6E_F35F;
+                'outer1: for i in env.my_range(cases) {
+                    for q in 0..n {
+                        lanes[q as usize] = (n * ((i + q * K) % cases) + q) & 0xffff_ffff;
+                    }
+                    for e in &es {
+                        if !direct(env, e, &lanes[..ns], &mut c) {
+                            break 'outer1;
+                        }
+                    }
                 }
-                for e in &es {
-                    if !direct(env, e, &lanes[..ns], &mut c) {
-                        break 'outer;
+            } else {
+                let total: u64 = ((1u64 << 32) + stride - 1) / stride;
+                let offset = mix(env.args.seed, 77) % stride;
+                'outer: for i in env.my_range(total) {
+                    let p = (i * stride + offset) & 0xffff_ffff;
+                    for q in 0..ns {
+                        lanes[q] = (p + q as u64 * 0x9E37_79B1) & 0xffff_ffff;
+                    }
+                    for e in &es {
+                        if !direct(env, e, &lanes[..ns], &mut c) {
+                            break 'outer;
+                        }
                     }
                 }
             }
             c.flush("cast", &mut env.tally);
             env.tally.exhaustive = stride == 1;
             env.tally.notes.insert("stride".into(), json!(stride));
+            env.tally.notes.insert(
+                "coverage".into(),
+                json!(if stride == 1 { "every f32 bit pattern through every cast of this type (pattern p in lane p mod N)" } else { "every stride-th f32 bit pattern in lane 0, shifted patterns in the other lanes" }),
+            );
             env.tally.notes.insert("conversions".into(), json!(es.iter().map(|e| e.name).collect::<Vec<_>>()));
         },
         check,
